@@ -25,7 +25,9 @@ pub fn run_ops(
             // (8 is the non-polling alphabets' "start over with a Default scanner": a reset here,
             // because a Default polling scanner would have another timeout)
             2 | 8 => region(|| {
-                sc.reset();
+                for _ in 0..=(if op[0] == 2 { op[1] } else { 0 }) {
+                    sc.reset();
+                }
                 [None, None]
             }),
             3 | 7 => {
@@ -141,6 +143,7 @@ pub fn random_history(r: &mut Rng, timeout: i64, maxlen: u64, v: &mut Vec<i64>) 
             op[0] = 2;
         }
     }
+    long_run(r, &mut ops);
     let n = ops.len() / 4;
     v.extend(ops);
     n
